@@ -28,4 +28,25 @@ Definition witness_R3 : pln :=
        [Build_seq Running false true
           [Build_act 1 Completed false false [okatt_w]; Build_act 2 Running false true []]]].
 
-Definition witness_images : list pln := [witness_R2; witness_R3].
+(* R6: crash after a run of the PLAN's continuous group failed (group written Failed) while block 0 was executing:
+   its first sequence done, its second one not started, its deferred group not run.  fixPlan sets the plan Failed for
+   the continuous group but does not return; fixBlock keeps the block Running (a sequence completed), no block
+   failed, so the plan stays Failed: Recovery goes to End and the block is abandoned. *)
+Definition witness_R6 : pln :=
+  Build_pln Running false true None None
+    (Some (Build_chk Failed false false [Build_act 0 Failed false false [erratt_w]])) None None
+    [Build_blk Running false true None None None None
+       (Some (Build_chk NotStarted true true [Build_act 1 NotStarted true true []]))
+       [Build_seq Completed false false [Build_act 2 Completed false false [okatt_w]];
+        Build_seq NotStarted true true [Build_act 3 NotStarted true true []]]].
+
+(* R5: the image a SECOND crash leaves behind.  First crash: a sequence in flight whose only action is durably
+   Completed; the recovery repairs the sequence to Completed in memory (fixSeq) and never writes it before the block's
+   terminal write (ExecuteSequences skips a Completed sequence).  Crash right after the block was written Completed:
+   the sequence is durably Running inside a finished block.  (The harness takes this image from a real recovery.) *)
+Definition witness_R5 : pln :=
+  Build_pln Running false true None None None None None
+    [Build_blk Completed false false None None None None None
+       [Build_seq Running false true [Build_act 0 Completed false false [okatt_w]]]].
+
+Definition witness_images : list pln := [witness_R2; witness_R3; witness_R6; witness_R5].
